@@ -19,7 +19,7 @@ HERE = os.path.dirname(os.path.dirname(os.path.abspath(__file__)))
 
 
 def load_known():
-    p = os.path.join(HERE, 'known_findings.json')
+    p = os.environ.get('VQ_KNOWN_FINDINGS') or os.path.join(HERE, 'known_findings.json')
     if not os.path.exists(p):
         return []
     return json.load(open(p)).get('findings', [])
